@@ -8,7 +8,7 @@ from typing import Callable
 from cached_property import cached_property
 from lazy_object_proxy import Proxy
 
-from spec_classes.types import MISSING, Attr
+from spec_classes.types import MISSING, UNCHANGED, Attr
 from spec_classes.utils.method_builder import MethodBuilder
 from spec_classes.utils.mutation import (
     _thawed,
@@ -118,7 +118,7 @@ class UpdateAttrMethod(AttrMethodDescriptor):
         _if: bool = True,
         **attrs,
     ):
-        if not _if:
+        if not _if or _new_value is UNCHANGED:
             return self
         return WithAttrMethod.with_attr(
             attr_spec,
